@@ -123,6 +123,8 @@ Clauses(s, e) ==
             <<"stream-complete", (s.expect /\ e.lossless /\ ~s.badterm) =>
                  \A k \in DOMAIN s.str : s.str[k].weof => (s.str[k].reof /\ s.str[k].r = s.str[k].w)>>,
             <<"model:all-terminated", e.allterm>> >>
+    \* the run was cut at the virtual-time horizon with the endpoints still busy
+    [] e.op = "nofinal" -> << <<"model:run-quiesces", FALSE>> >>
     [] OTHER -> << <<"ok", TRUE>> >>
 
 Cl(e) == Clauses(t, e)
